@@ -12,7 +12,7 @@ import (
 
 func init() {
 	register("C14", runC14, propMeta{
-		Explanation: "Decides, for all rule sets and every position of the rule that sets the tag: (T1, rule A3-T) in the three sorted stop-tag variants every path from a rule execution to the next iteration reads sTag.StopTag after that execution (so the setting rule completes and its result and error are handled first), the true edge leaves the loop at its normal exit (collected errors still surface) and reaches no further rule execution; (T2) in the mix variant the tag is read after the first rule's execution and error handling, every go statement is dominated by the false edge of that test, and the true edge reaches no rule execution; (T3) each tagged function agrees with its untagged sibling: the multiset of branch conditions differs only by reads of sTag.StopTag and the multiset of calls is identical, so with the tag never set the behaviour is the sibling's; (T4) the four pool wrappers hand the caller's *Stag to the engine method unchanged. Not decided: the data race a rule body may create on its own Stag (host data). (T6) a conc statement returns only after the join of all its branches, so a rule has completed, its assignment to the tag included, when the tag is read.",
+		Explanation: "Decides, for all rule sets and every position of the rule that sets the tag: (T1, rule A3-T) in the three sorted stop-tag variants every path from a rule execution to the next iteration reads sTag.StopTag after that execution (so the setting rule completes and its result and error are handled first), the true edge leaves the loop at its normal exit (collected errors still surface) and reaches no further rule execution; (T2) in the mix variant the tag is read after the first rule's execution and error handling, every go statement is dominated by the false edge of that test, and the true edge reaches no rule execution; (T3) each tagged function agrees with its untagged sibling: the multiset of branch conditions differs only by reads of sTag.StopTag and the multiset of calls is identical, so with the tag never set the behaviour is the sibling's; (T4) the four pool wrappers hand the caller's *Stag to the engine method unchanged. Not decided: the data race a rule body may create on its own Stag (host data). (T6) a conc statement returns only after the join of all its branches, so a rule has completed, its assignment to the tag included, when the tag is read. (T7) both variants of a selected pair skip a name no rule carries (the miss edge of the selection, checked per variant).",
 		Assumptions: []string{"the rule sets the tag through the injected *Stag it was given"},
 		Trusted:     commonTrusted,
 	})
@@ -273,7 +273,16 @@ func runC14(c *Ctx) {
 		c.Check("T3-sibling-agreement", fnName(tagged)+"~"+pr[1]+"#conditions", okConds && len(onlyT) >= 1, tagged.Pos(), "branch conditions only in the tagged variant: %v; only in the sibling: %v (allowed: reads of the stop tag)", onlyT, onlyP)
 		ct, cp := bagDiff(tcalls, pcalls)
 		c.Check("T3-sibling-agreement", fnName(tagged)+"~"+pr[1]+"#calls", len(ct) == 0 && len(cp) == 0, tagged.Pos(), "calls only in the tagged variant: %v; only in the sibling: %v", ct, cp)
+		// T7: the two variants resolve the caller's names alike — a name no rule carries is skipped
+		// by both (conditions and calls can agree while one variant leaves on the miss edge)
+		if strings.HasPrefix(pr[0], "ExecuteSelected") {
+			c.only = func(key string) bool { return strings.Contains(key, "/miss-") }
+			c.ruleSelection("T7-variants-select-alike", tagged, "skip")
+			c.ruleSelection("T7-variants-select-alike", plain, "skip")
+			c.only = nil
+		}
 	}
+	c.Min("T7-variants-select-alike", 8)
 	// T4 pool wrappers
 	for _, pr := range c14Pairs {
 		pf := c.MustFn("T4-pool-passes-tag", "engine", "GenginePool", pr[0])
